@@ -214,7 +214,7 @@ class MyPyAstVisitor:
                     f"{node.fullname.rsplit('.', 1)[0]}.{superclass_name}"
                 )
                 if superclass_name in self.aliases and not defined_here:
-                    _, superclass_alias_qname = self._find_alias(superclass_name)
+                    _, superclass_alias_qname = self._find_alias(superclass_name, resolved_qname=superclass_qname)
                     superclass_qname = superclass_alias_qname if superclass_alias_qname else superclass_qname
 
                 superclasses.append(superclass_qname)
@@ -1166,7 +1166,7 @@ class MyPyAstVisitor:
         logging.warning("Could not parse a type, added unknown type instead.")  # pragma: no cover
         return sds_types.UnknownType()  # pragma: no cover
 
-    def _find_alias(self, type_name: str) -> tuple[str, str]:
+    def _find_alias(self, type_name: str, resolved_qname: str = "") -> tuple[str, str]:
         module = self.__declaration_stack[0]
 
         # At this point, the first item of the stack can only ever be a module
@@ -1174,7 +1174,7 @@ class MyPyAstVisitor:
             raise TypeError(f"Expected module, got {type(module)}.")
 
         # First we check if it can be found in the imports
-        name, qname = self._search_alias_in_qualified_imports(module.qualified_imports, type_name)
+        name, qname = self._search_alias_in_qualified_imports(module.qualified_imports, type_name, resolved_qname)
         if name and qname:
             return name, qname
 
@@ -1205,12 +1205,21 @@ class MyPyAstVisitor:
     def _search_alias_in_qualified_imports(
         qualified_imports: list[QualifiedImport],
         alias_name: str,
+        resolved_qname: str = "",
     ) -> tuple[str, str]:
-        for qualified_import in qualified_imports:
-            if alias_name in {qualified_import.alias, qualified_import.qualified_name.split(".")[-1]}:
-                qname = qualified_import.qualified_name
-                name = qname.split(".")[-1]
-                return name, qname
+        matching_qnames = [
+            qualified_import.qualified_name
+            for qualified_import in qualified_imports
+            if alias_name in {qualified_import.alias, qualified_import.qualified_name.split(".")[-1]}
+        ]
+        if len(matching_qnames) > 1 and resolved_qname:
+            # Classes of the same name imported from several modules (one of them under an alias): take the import that
+            # leads to the class the type checker resolved (imports may be written relative to the package)
+            matching_qnames = [
+                qname for qname in matching_qnames if resolved_qname == qname or resolved_qname.endswith(f".{qname}")
+            ] or matching_qnames
+        if matching_qnames:
+            return matching_qnames[0].split(".")[-1], matching_qnames[0]
         return "", ""
 
     def _is_public(self, name: str, qname: str) -> bool:
